@@ -337,6 +337,9 @@ func (s *Sim) CtlHandle(h int, op string, env Env) ([]string, string) {
 		before := len(s.W.runs[hd.run].versions)
 		stale := hd.rec.Meta.Version != s.W.runs[hd.run].versions[before-1].Meta.Version
 		s.W.Mon.handleStale = stale
+		if stale && s.W.Mon.after == "" {
+			s.W.Mon.after = "stale-handle"
+		}
 		err := applyCtl(s.ctx, hd.ctl, op)
 		res = errClass(err)
 		s.W.Mon.afterCtl(hd.run, op, err, before, stale)
